@@ -1,10 +1,12 @@
 import QibModel.DriverMain
 import QibModel.TNetOps
+import QibModel.TNetPublicOps
 open Lean Qib
 
 def tnetDispatch : Dispatch := fun op j =>
   match op with
   | "net.history" => some (TNet.opHistory j)
+  | "net.historyP" => some (TNet.opHistoryP j)
   | "net.einsum" => some (TNet.opEinsum j)
   | "net.tree" => some (TNet.opTree j)
   | "net.value" => some (TNet.opValue j)
